@@ -7,7 +7,9 @@ sys.path.insert(0, V)
 from sa import localsig
 from sa.repo import PACKAGES
 root = sys.argv[1] if len(sys.argv) > 1 else "/repo"
+from sa import inline
 table = {}
+known = {}
 for pkg in PACKAGES:
     for dp, dn, fn in os.walk(os.path.join(root, pkg)):
         dn[:] = sorted(d for d in dn if d != "__pycache__")
@@ -24,5 +26,7 @@ for pkg in PACKAGES:
                 if sigs:
                     ent[q] = {key: nm for nm, key in sorted(sigs.items())}
             if ent: table[mod] = ent
+            known[mod] = sorted(inline.all_function_quals(tree))
 json.dump(table, open(localsig.TABLE_PATH, "w"), indent=0, sort_keys=True)
+json.dump(known, open(inline.KNOWN_PATH, "w"), indent=0, sort_keys=True)
 print("modules", len(table), "functions", sum(len(v) for v in table.values()), "locals", sum(len(x) for v in table.values() for x in v.values()))
